@@ -443,6 +443,105 @@ theorem ungrouped_view_refines_partial (st : State) (ref : List Spec.RSeries) (c
   simp only [sendBatch, hv, Bool.not_true, Bool.false_eq_true, if_false, Spec.applyBatch, hfresh]
   exact ⟨this.1, this.2.2⟩
 
+/-! ## Whole histories -/
+
+/-- one `SendBatch` call of a history: the hook's common labels, the operations (as parsed), and
+the iteration order the Go map happened to have. -/
+structure Call where
+  common : Labels
+  ops : List Op
+  order : List Nat
+
+/-- Everything the two refinement theorems ask of one call in state `st` — i.e. "the call stays
+outside the recorded finding classes". An invalid batch needs nothing. -/
+structure CallOK (st : State) (c : Call) : Prop where
+  batch : BatchOK c.common c.ops
+  nodup : c.order.Nodup
+  order : ∀ g, g ∈ c.order ↔ g ∈ groupsOf c.ops
+  noCross : ∀ op ∈ c.ops, op.group ≠ 0 → op.action ≠ "expire" →
+    ∀ e ∈ st.gentries, (e.name, e.key) = opIdent c.common op → e.group = op.group
+  noClash : ∀ op ∈ c.ops, op.group ≠ 0 → op.action ≠ "expire" → getOrCreateColl st op.name (opFam op) ≠ none
+  uok : ∀ op ∈ c.ops, op.group = 0 → UOk (afterGroups st c.common c.ops c.order) c.common op
+  usame : ∀ op ∈ c.ops, op.group = 0 → ∀ op' ∈ c.ops, op'.group = 0 → op'.name = op.name →
+    op'.action = op.action ∧ (mergeLabels op'.labels c.common).map (·.1) = (mergeLabels op.labels c.common).map (·.1)
+  nonneg : ∀ op ∈ c.ops, op.group = 0 → op.action = "add" → ∀ v, op.value = some v → 0 ≤ v
+
+/-- the store and the reference registry show the same series: per group and ungrouped. -/
+def Agree (st : State) (ref : List Spec.RSeries) : Prop :=
+  (∀ g, g ≠ 0 → ∀ k, ownedLookup st.gentries g k = rview ref g k) ∧ (∀ n k, uview st n k = rview0 ref n k)
+
+def runCalls (st : State) : List Call → State
+  | [] => st
+  | c :: cs => runCalls (sendBatch st c.common c.ops c.order).1 cs
+
+def refCalls (ref : List Spec.RSeries) : List Call → List Spec.RSeries
+  | [] => ref
+  | c :: cs => refCalls (Spec.applyBatch ref c.common c.ops).1 cs
+
+/-- every call of the history is either an invalid batch or outside the finding classes in the
+state it meets. -/
+def HistoryOK (st : State) : List Call → Prop
+  | [] => True
+  | c :: cs => (validBatch c.ops = false ∨ CallOK st c) ∧ HistoryOK (sendBatch st c.common c.ops c.order).1 cs
+
+/-- One call keeps the agreement, and its return value is the reference registry's. -/
+theorem call_refines_partial (st : State) (ref : List Spec.RSeries) (c : Call)
+    (hc : validBatch c.ops = false ∨ CallOK st c) (h : Agree st ref) :
+    Agree (sendBatch st c.common c.ops c.order).1 (Spec.applyBatch ref c.common c.ops).1 ∧
+      (sendBatch st c.common c.ops c.order).2 = (Spec.applyBatch ref c.common c.ops).2 := by
+  by_cases hv : validBatch c.ops = true
+  · rcases hc with hc | hc
+    · rw [hv] at hc; exact absurd hc (by decide)
+    · have hu := ungrouped_view_refines_partial st ref c.common c.ops c.order hv hc.uok hc.usame hc.nonneg h.2
+      refine ⟨⟨grouped_view_refines_partial st ref c.common c.ops c.order hc.batch hc.nodup hc.order
+        hc.noCross hc.noClash h.1, hu.2⟩, ?_⟩
+      rw [hu.1]; simp [Spec.applyBatch, hv]
+  · have hv' : validBatch c.ops = false := by simpa using hv
+    simp [sendBatch, Spec.applyBatch, hv', h]
+
+/-- **C16, whole histories** (partial: `HistoryOK`): starting from a store and a reference registry
+that agree (in particular from both empty), after any sequence of batches from any hooks — invalid
+batches included, any map orders — the store shows exactly the series of the reference registry:
+that is the property (invalid ⇒ nothing applied; a mentioned group's series are replaced by the
+batch's; other groups and ungrouped series untouched; ungrouped operations update their series). -/
+theorem history_refines_partial (calls : List Call) (st : State) (ref : List Spec.RSeries)
+    (hok : HistoryOK st calls) (h : Agree st ref) : Agree (runCalls st calls) (refCalls ref calls) := by
+  induction calls generalizing st ref with
+  | nil => exact h
+  | cons c cs ih =>
+    exact ih _ _ hok.2 (call_refines_partial st ref c hok.1 h).1
+
+theorem agree_empty : Agree {} [] := ⟨fun _ _ _ => rfl, fun _ _ => rfl⟩
+
+/-- non-vacuity of `history_refines_partial`: a call with a grouped `set` and an ungrouped `add` on the
+empty store meets `CallOK`. -/
+def exampleCall : Call where
+  common := [(1, 7)]
+  order := [5]
+  ops := [{ name := 10, group := 5, action := "set", value := some 4, labels := [(3, 4)] },
+          { name := 20, action := "add", value := some 3 }]
+
+example : HistoryOK {} [exampleCall] ∧ (runCalls {} [exampleCall]).gentries = [{ name := 10, key := [(1, 7), (3, 4)], val := 4, group := 5 }] := by
+  refine ⟨⟨Or.inr ?_, trivial⟩, by decide⟩
+  have hnorm : ∀ op ∈ exampleCall.ops, Normalized op := by
+    intro op hop
+    simp only [exampleCall, List.mem_cons, List.not_mem_nil, or_false] at hop
+    rcases hop with rfl | rfl <;> exact ⟨fun a h => by simp at h, fun a h => by simp at h⟩
+  refine ⟨⟨by decide, hnorm, by decide, by decide⟩, by decide, ?_, ?_, ?_, ?_, by decide, ?_⟩
+  · intro g; simp [exampleCall, groupsOf]
+  · intro op hop hg hx e he; simp at he
+  · decide
+  · intro op hop hg
+    simp only [exampleCall, List.mem_cons, List.not_mem_nil, or_false] at hop
+    rcases hop with rfl | rfl
+    · simp at hg
+    · right; decide
+  · intro op hop hg ha v hv
+    simp only [exampleCall, List.mem_cons, List.not_mem_nil, or_false] at hop
+    rcases hop with rfl | rfl
+    · simp at hg
+    · simp at hv; omega
+
 /-- **C16.2** `ungrouped_update`: on a name that is free in the registry, an ungrouped `set`
 creates the vec with the operation's label names plus `hook`, and the series with the value. -/
 theorem ungrouped_set_fresh (st : State) (common : Labels) (op : Op) (v : Int)
